@@ -1,19 +1,33 @@
 package c08
 
-import "verif/mc"
+import (
+	"verif/checks/chainx"
+	"verif/mc"
+)
 
-// Run: part A now; part B (block histories) is added by the chain explorer.
+var hooks = chainx.Hooks{Links: true}
+
+// Run: part A (StateDB API sequences) then part B (block histories).
 func Run(r *mc.Run) {
 	r.Level = "model_checking"
-	r.Rule = "part A: every op sequence up to the stated depth over validator/delegation mutations (production call patterns) + snap/revert + finalise + commit+reload + copy on the real StateDB, recomputation oracle after every op; distinct = distinct record observations reached"
+	r.Rule = "part A: every op sequence up to the stated depth over validator/delegation mutations (production call patterns) + snap/revert + finalise + commit+reload + copy on the real StateDB, recomputation oracle after every op; part B: every bounded block history (chainx.Explore) with the same oracle on the head state after every block (reopened from the header roots); distinct = distinct record observations / head hashes reached"
 	if r.Quick() {
 		r.SetBudget(200e9)
 	} else {
-		r.SetBudget(40 * 60e9)
+		r.SetBudget(45 * 60e9)
 	}
 	runStateDB(r)
-	runChain(r)
+	noForced := chainx.DefaultCfg
+	noForced.MaxRewardsPeriod = 1000
+	forced := chainx.DefaultCfg
+	forced.MaxRewardsPeriod = 1
+	if r.Quick() {
+		chainx.Explore(r, hooks, []chainx.ParamCfg{noForced}, chainx.MenuCore, 4, 3)
+		chainx.Explore(r, hooks, []chainx.ParamCfg{forced}, chainx.MenuCore, 3, 2)
+	} else {
+		menu := append(append([]string{}, chainx.MenuCore...), chainx.MenuMore...)
+		chainx.Explore(r, hooks, []chainx.ParamCfg{noForced, forced}, menu, 4, 3)
+	}
 }
 
-var runChain = func(r *mc.Run) {}
-var replayChain = func(r *mc.Run, v *mc.Violation) {}
+func replayChain(r *mc.Run, v *mc.Violation) { chainx.ReplayHist(r, v, hooks) }
